@@ -34,6 +34,14 @@ func (c02) Gen(r *simrt.Rand, idx int, tier string) *Case {
 		c.Scheds = append(c.Scheds, CanonSched())
 	}
 	c.Note = "flags are re-parsed from Args by the reference"
+	// a journal that never mentions Equity:Equity: period closing creates that
+	// account while the report is being computed (the flags, filters included,
+	// were drawn while the counter-account still had that name)
+	if r.P(0.15) && !hasAccount(c.J, "Equity:Opening") {
+		c.J.RenameAccount("Equity:Equity", "Equity:Opening")
+		c.Note += "; Equity:Equity renamed to Equity:Opening"
+		Ctr.Probes["c02.no-equity-equity"]++
+	}
 	return c
 }
 
@@ -258,4 +266,13 @@ func (c01) Eval(c *Case) (*Violation, bool) {
 		}
 	}
 	return nil, vac
+}
+
+func hasAccount(j *Journal, a string) bool {
+	for _, x := range j.Accounts() {
+		if x == a {
+			return true
+		}
+	}
+	return false
 }
